@@ -65,6 +65,60 @@ def layout_facts():
             _walk(o, g)
     facts["go_found"] = found_go
     facts["go_touches_stop_flag"] = touches
+    # every write of the flag by any member function of Search: only 'true' (or |=) may be written - the search thread must never clear it
+    clears = []
+    sets = []
+
+    def _strip(n):
+        while n.get("kind") in ("ImplicitCastExpr", "ParenExpr", "ExprWithCleanups", "MaterializeTemporaryExpr", "CXXFunctionalCastExpr") and n.get("inner"):
+            n = n["inner"][0]
+        return n
+
+    def _is_flag(n):
+        n = _strip(n)
+        return n.get("kind") == "MemberExpr" and n.get("name") == "stop_search"
+
+    def _is_true(n):
+        n = _strip(n)
+        return n.get("kind") == "CXXBoolLiteralExpr" and n.get("value") is True
+
+    def _line(n):
+        b = n.get("range", {}).get("begin", {})
+        return b.get("line") or b.get("spellingLoc", {}).get("line") or b.get("expansionLoc", {}).get("line")
+
+    seen_fn = set()
+    for o in _ast("search.cpp", "engine::Search::", d):
+        if o.get("kind") not in ("CXXMethodDecl", "CXXConstructorDecl", "CXXDestructorDecl", "FunctionTemplateDecl") or not any(
+                isinstance(c, dict) and c.get("kind") == "CompoundStmt" for c in (o.get("inner") or [])) and o.get("kind") != "FunctionTemplateDecl":
+            continue
+        if o.get("id") in seen_fn:
+            continue
+        seen_fn.add(o.get("id"))
+        fn = o.get("name")
+
+        def w(n):
+            k = n.get("kind")
+            inner = [c for c in (n.get("inner") or []) if isinstance(c, dict)]
+            if k == "CXXOperatorCallExpr" and len(inner) >= 3 and _is_flag(inner[1]):
+                op = _strip(inner[0]).get("referencedDecl", {}).get("name", "")
+                if op == "operator=" and _is_true(inner[2]):
+                    sets.append("%s:%s" % (fn, _line(n)))
+                if op == "operator=" and not _is_true(inner[2]):
+                    clears.append("%s: assignment of a non-literal" % fn)
+                elif op in ("operator&=", "operator^="):
+                    clears.append("%s: %s" % (fn, op))
+            elif k in ("BinaryOperator", "CompoundAssignOperator") and len(inner) == 2 and _is_flag(inner[0]):
+                opc = n.get("opcode")
+                if (opc == "=" and not _is_true(inner[1])) or opc in ("&=", "^="):
+                    clears.append("%s: %s" % (fn, opc))
+            elif k == "CXXMemberCallExpr" and inner and inner[0].get("kind") == "MemberExpr" and inner[0].get("name") in (
+                    "store", "exchange", "compare_exchange_strong", "compare_exchange_weak") and inner[0].get("inner") and _is_flag(inner[0]["inner"][0]):
+                arg = inner[-1] if inner[0].get("name").startswith("compare") else (inner[1] if len(inner) > 1 else {})
+                if not _is_true(arg):
+                    clears.append("%s: %s of a non-literal" % (fn, inner[0].get("name")))
+        _walk(o, w)
+    facts["flag_clearing_writes"] = sorted(set(clears))
+    facts["flag_set_sites"] = len(set(sets))
     # san scratch buffer
     sanext = None
     for o in _ast("position.cpp", "engine::Position::san", d):
@@ -89,5 +143,8 @@ def gen_layout_v():
     txt += "Definition previous_moves_extent : Z := (%d)%%Z.\n" % (f["previous_moves_extent"] if f["previous_moves_extent"] is not None else -1)
     txt += "Definition san_scratch_extent : Z := (%d)%%Z.\n" % (f["san_scratch_extent"] if f["san_scratch_extent"] is not None else -1)
     txt += "Definition go_touches_stop_flag : bool := %s.\n" % ("true" if f["go_touches_stop_flag"] or not f["go_found"] else "false")
+    txt += "(* writes of the stop flag by member functions of Search that are not 'flag = true' / '|=': %s *)\n" % (", ".join(f["flag_clearing_writes"]) or "none")
+    txt += "Definition flag_set_sites : Z := (%d)%%Z.   (* 'flag = true' statements found: the walk is not vacuous *)\n" % f["flag_set_sites"]
+    txt += "Definition flag_clearing_writes : Z := (%d)%%Z.\n" % len(f["flag_clearing_writes"])
     write_if_changed(os.path.join(GEN, "LayoutAst.v"), txt)
     return f, missing
